@@ -465,3 +465,40 @@ Proof.
   vm_compute. split; [reflexivity|]. split; [eexists; reflexivity|].
   repeat split; try reflexivity; try discriminate. repeat constructor.
 Qed.
+
+(* The end-to-end statement for ALL bracket rewrites, reduced to a fact about the reference
+   parser alone (no parser, no builder).  [rrel sigma false r' r] (Proofs/C18/ParensCodeRef.v):
+   the reference tree r' is r with round brackets put around any number of operands that are
+   value tokens (not an identifier that is the right operand of `.`) or bracketed groups, a
+   token at place k of the plain list standing at place sigma k of the bracketed one.  Then
+   the two token lists build to the same code in the sense of [same_code_of_builds].  A
+   value and a group are neutral in EVERY context, so no side condition is left over.
+   Clauses two and three of C18_parens_same_code_full_statement follow once the reference
+   trees of `pre ( v ) post` and `pre (( e )) post` are computed exactly (so far they are
+   known up to strip_groups only). *)
+From GV Require Import Proofs.C18.ParensCodeRef.
+Theorem C18_parens_same_code_from_reference_trees :
+  forall (sigma : nat -> nat) (toks toks' : list token_type) (r r' : rtree),
+  pratt toks = Some r -> pratt toks' = Some r' -> rrel sigma false r' r ->
+  same_code_of_builds sigma toks toks'.
+Proof. exact rrel_same_code. Qed.
+Print Assumptions C18_parens_same_code_from_reference_trees.
+
+(* non-vacuity: `x * a.b + -c~~` against `x * a.b + -(c)~~` (clause two of the full statement
+   on one instance): the reference trees are related, hence same code *)
+Example C18_ex_parens_value_same_code :
+  let sigma := fun k => if k <? 9 then k else if k =? 9 then k + 1 else k + 2 in
+  let toks := ex_pv_pre ++ TT_Identifier :: [TT_EmptyApply] in
+  let toks' := ex_pv_pre ++ TT_StartGroup :: TT_Identifier :: TT_EndGroup :: [TT_EmptyApply] in
+  (exists r r', pratt toks = Some r /\ pratt toks' = Some r' /\ rrel sigma false r' r) /\
+  same_code_of_builds sigma toks toks'.
+Proof.
+  cbv zeta.
+  assert (H : exists r r', pratt (ex_pv_pre ++ TT_Identifier :: [TT_EmptyApply]) = Some r /\
+                           pratt (ex_pv_pre ++ TT_StartGroup :: TT_Identifier :: TT_EndGroup :: [TT_EmptyApply]) = Some r' /\
+                           rrel (fun k => if k <? 9 then k else if k =? 9 then k + 1 else k + 2) false r' r).
+  { eexists _, _. split; [vm_compute; reflexivity|]. split; [vm_compute; reflexivity|].
+    vm_compute. repeat (first [reflexivity | split | right]). }
+  split; [exact H|]. destruct H as (r & r' & H1 & H2 & H3).
+  exact (C18_parens_same_code_from_reference_trees _ _ _ _ _ H1 H2 H3).
+Qed.
